@@ -349,7 +349,63 @@ fn gen_inputs(rng: &mut Rng) -> (String, String, String, String, &'static str) {
     let mut frag = BASE_FRAG.to_string();
     let mut config = BASE_CONFIG.to_string();
     let kind;
-    match rng.below(13) {
+    match rng.below(16) {
+        12 | 13 => {
+            // a valid generated project (the workload of the type-level monitors): after an accepted check every printer
+            // runs, so a printer precondition that check does not establish shows up as a panic here
+            kind = "valid-generated-project";
+            use crate::gen_ops::{OpOpts, gen_valid_doc};
+            use crate::gen_schema::{SchemaOpts, gen_valid_schema};
+            let mut so = SchemaOpts::default_for(rng);
+            so.interface_chains = true;
+            let (sm, _) = gen_valid_schema(rng, &so);
+            let ix = crate::schema_ix::SchemaIx::new(&sm);
+            let mut oo = OpOpts::standard();
+            oo.coercing_literals = rng.coin();
+            if let Some(d) = gen_valid_doc(rng, &ix, &oo) {
+                schema = render_ts(&sm, None, Feat::plain());
+                op = render_exec(&d, None, Feat::plain());
+                let first_obj = ix.order.iter().find(|t| ix.kind(t) == Some(crate::model::TKind::Object)).cloned().unwrap_or_else(|| "Query".into());
+                frag = format!("fragment Unrelated on {first_obj} {{ __typename }}\n");
+                let mut cfg = String::from("schema: ./schema.graphql\ndocuments: ./*.graphql\nextensions:\n  nitrogql:\n    generate:\n      schemaOutput: ./out/schema.d.ts\n      resolversOutput: ./out/resolvers.d.ts\n      serverGraphqlOutput: ./out/server.ts\n      type:\n        scalarTypes:\n");
+                let mut any = false;
+                for t in &ix.order {
+                    if ix.kind(t) == Some(crate::model::TKind::Scalar) && !crate::schema_ix::BUILTIN_SCALARS.contains(&t.as_str()) {
+                        cfg.push_str(&format!("          {t}: string\n"));
+                        any = true;
+                    }
+                }
+                if !any {
+                    cfg.push_str("          Unused: string\n");
+                }
+                config = cfg;
+            }
+        }
+        14 => {
+            // fragment cycles of length 1-3, reached from every kind of operation, at the root or below a field, or unused
+            kind = "fragment-cycles";
+            let n = 1 + rng.below(3);
+            let (opkw, root_ty, root_field) = *rng.pick(&[("query", "Query", "b"), ("mutation", "Mutation", "m(i: {k: 1})"), ("subscription", "Subscription", "s")]);
+            let at_root = rng.coin();
+            let on = if at_root { root_ty } else { "T" };
+            let body = if at_root { if root_ty == "Query" { "a" } else { "__typename" } } else { "id" };
+            let mut d = String::new();
+            // always reached from the operation: an *unused* recursive fragment is the listed finding (check never looks at
+            // it and generate overflows the stack), whose committed repro is replayed on its own; generating it here
+            // would only kill the shard and lose the rest of its workload
+            let entry = "...C0".to_string();
+            if at_root {
+                d.push_str(&format!("{opkw} Cyc {{ {entry} {} }}\n", if root_ty == "Subscription" && !entry.is_empty() { "" } else if root_ty == "Query" { "a" } else if root_ty == "Mutation" { "m(i: {k: 1}) { id }" } else { "s { id }" }));
+            } else {
+                d.push_str(&format!("{opkw} Cyc {{ {root_field} {{ id {entry} }} }}\n"));
+            }
+            for i in 0..n {
+                let next = (i + 1) % n;
+                let extra = if rng.chance(1, 4) { format!(" ... on {on} {{ ...C{next} }}") } else { String::new() };
+                d.push_str(&format!("fragment C{i} on {on} {{ {body} ...C{next}{extra} }}\n"));
+            }
+            op = d;
+        }
         11 => {
             kind = "escape-soup";
             let e = escape_soup(rng);
